@@ -35,8 +35,11 @@ _CHILD = textwrap.dedent('''
 def fresh_process_records(nodes, ctx0, detail, d):
     (d / "child.py").write_text(_CHILD)
     (d / "case.json").write_text(json.dumps({"nodes": nodes, "ctx": ctx0, "detail": detail}))
-    p = subprocess.run([sys.executable, str(d / "child.py"), str(d / "case.json")], capture_output=True, text=True, timeout=180,
-                       env=dict(os.environ, PYTHONHASHSEED="random"), cwd="/")
+    try:
+        p = subprocess.run([sys.executable, str(d / "child.py"), str(d / "case.json")], capture_output=True, text=True, timeout=600,
+                           env=dict(os.environ, PYTHONHASHSEED="random"), cwd="/")
+    except subprocess.TimeoutExpired:
+        return None
     line = next((l for l in p.stdout.splitlines() if l.startswith("RECS ")), None)
     return None if line is None else json.loads(line[5:])
 
